@@ -11,6 +11,7 @@ import (
 	"time"
 
 	"gosim/hb"
+	"gosim/seam"
 
 	simrt "github.com/tsuna/gohbase/verifsimrt"
 	"github.com/tsuna/gohbase/zk"
@@ -98,7 +99,7 @@ func (a simAddr) Network() string { return "sim" }
 func (a simAddr) String() string  { return string(a) }
 
 // Dial is the RegionDialer handed to the client.
-func (e *Env) Dial(ctx context.Context, network, addr string) (net.Conn, error) {
+func (e *Env) dial(ctx context.Context, network, addr string) (net.Conn, error) {
 	simrt.Yield("simnet:Dial")
 	if e.frozen.Load() {
 		return nil, net.ErrClosed
@@ -194,7 +195,7 @@ func (c *Conn) signal() {
 	simrt.RaceOn()
 }
 
-func (c *Conn) Read(p []byte) (int, error) {
+func (c *Conn) read(p []byte) (int, error) {
 	simrt.Yield("simnet:Read")
 	if c.env.frozen.Load() {
 		return 0, net.ErrClosed
@@ -264,7 +265,7 @@ func (c *Conn) Read(p []byte) (int, error) {
 	}
 }
 
-func (c *Conn) Write(p []byte) (int, error) {
+func (c *Conn) write(p []byte) (int, error) {
 	simrt.Yield("simnet:Write")
 	if c.env.frozen.Load() {
 		return 0, net.ErrClosed
@@ -381,7 +382,7 @@ func (c *Conn) feed(p []byte) {
 	c.env.Ev("c%d W %d", c.N, len(p))
 }
 
-func (c *Conn) Close() error {
+func (c *Conn) closeConn() error {
 	simrt.Yield("simnet:Close")
 	if c.env.frozen.Load() {
 		return nil
@@ -422,7 +423,7 @@ func (c *Conn) SetDeadline(t time.Time) error {
 	return c.SetWriteDeadline(t)
 }
 
-func (c *Conn) SetReadDeadline(t time.Time) error {
+func (c *Conn) setReadDeadline(t time.Time) error {
 	simrt.Yield("simnet:SetReadDeadline")
 	if c.env.frozen.Load() {
 		return net.ErrClosed
@@ -442,7 +443,7 @@ func (c *Conn) SetReadDeadline(t time.Time) error {
 	return nil
 }
 
-func (c *Conn) SetWriteDeadline(t time.Time) error {
+func (c *Conn) setWriteDeadline(t time.Time) error {
 	simrt.Yield("simnet:SetWriteDeadline")
 	if c.env.frozen.Load() {
 		return net.ErrClosed
@@ -627,7 +628,7 @@ type ZKQuery struct {
 	Err  bool
 }
 
-func (z *ZK) LocateResource(r zk.ResourceName) (string, error) {
+func (z *ZK) locateResource(r zk.ResourceName) (string, error) {
 	simrt.Yield("simzk:Locate")
 	e := z.env
 	if e.frozen.Load() {
@@ -673,4 +674,42 @@ func (z *ZK) LocateResource(r zk.ResourceName) (string, error) {
 	}
 	e.Ev("zk %s -> %s", r, addr)
 	return addr, nil
+}
+
+// ---- entry points of the code under test (see package seam) ----
+
+// Dial is the RegionDialer handed to the client.
+func (e *Env) Dial(ctx context.Context, network, addr string) (c net.Conn, err error) {
+	seam.Enter(func() { c, err = e.dial(ctx, network, addr) })
+	return
+}
+
+func (c *Conn) Read(p []byte) (n int, err error) {
+	seam.Enter(func() { n, err = c.read(p) })
+	return
+}
+
+func (c *Conn) Write(p []byte) (n int, err error) {
+	seam.Enter(func() { n, err = c.write(p) })
+	return
+}
+
+func (c *Conn) Close() (err error) {
+	seam.Enter(func() { err = c.closeConn() })
+	return
+}
+
+func (c *Conn) SetReadDeadline(t time.Time) (err error) {
+	seam.Enter(func() { err = c.setReadDeadline(t) })
+	return
+}
+
+func (c *Conn) SetWriteDeadline(t time.Time) (err error) {
+	seam.Enter(func() { err = c.setWriteDeadline(t) })
+	return
+}
+
+func (z *ZK) LocateResource(r zk.ResourceName) (addr string, err error) {
+	seam.Enter(func() { addr, err = z.locateResource(r) })
+	return
 }
